@@ -203,7 +203,7 @@ static void gen(Emitter &em, const Options &opt) {
 // still caught (an explicit --timeout on the command line wins).
 int main(int argc, char **argv) {
     std::vector<char *> args; args.push_back(argv[0]);
-    static char opt[] = "--timeout", val[] = "30";
+    static char opt[] = "--timeout", val[] = "10";
     args.push_back(opt); args.push_back(val);
     for (int i = 1; i < argc; ++i) args.push_back(argv[i]);
     return run_main((int)args.size(), args.data(), gen, exec_case);
